@@ -3,7 +3,10 @@ use std::sync::atomic::{AtomicUsize, Ordering};
 use crate::config::config;
 use crate::coroutine_impl::CoroutineImpl;
 use crossbeam::queue::SegQueue;
+#[cfg(not(kani))]
 use generator::Gn;
+#[cfg(kani)]
+use crate::verif_shim::gen::Gn;
 
 /// the raw coroutine pool, with stack and register prepared
 /// you need to tack care of the local storage
@@ -57,3 +60,7 @@ impl CoroutinePool {
         self.pool.push(co);
     }
 }
+
+#[cfg(kani)]
+#[path = "/verif/harness/may/pool.rs"]
+mod verif_kani;
